@@ -2,8 +2,11 @@
   C03 — loader discipline and resolution invariants (resolve.go).
   Property theorems only; helper lemmas: JSV/Proofs/ResInv.lean (invariants threaded through
   resolveDoc / resolveRefsLoop / resolveRef by open recursion + induction on fuel), ResRefs.lean,
-  ResKnown.lean, ResMono.lean, ResUri.lean; for the designation theorems (last section; the
-  declarative side is JSV/Spec/Designate.lean) ResTree.lean, ResDesig.lean, ResDesigRefs.lean.
+  ResKnown.lean, ResMono.lean, ResUri.lean; for the designation theorems (the
+  declarative side is JSV/Spec/Designate.lean) ResTree.lean, ResDesig.lean, ResDesigRefs.lean; for the
+  converse (a reference that designates nothing is an error, and nothing else is: hypotheses in
+  JSV/Spec/WellFormed.lean) ResComplete.lean, ResCompleteUris.lean, ResCompleteRefs.lean, ResCompleteMulti.lean
+  (with a Loader), ResCompleteWF.lean (checkers, certificates).
 -/
 import JSV.Proofs.ResInv
 import JSV.Proofs.ResRefs
@@ -12,6 +15,9 @@ import JSV.Proofs.ResMono
 import JSV.Proofs.ResUri
 import JSV.Proofs.ResDesigRefs
 import JSV.Proofs.ResDesigMulti
+import JSV.Proofs.ResCompleteRefs
+import JSV.Proofs.ResCompleteMulti
+import JSV.Proofs.ResCompleteWF
 namespace JSV.C03
 open JSV Go Go.RInv
 
@@ -579,6 +585,429 @@ example : ¬ LoaderFresh cxEnv 0 := by
   exact (h _ rfl).2 "http://a/x" "http://a/y" 3 3 (by decide) rfl rfl 3 (reach_root _ 3) (reach_root _ 3)
 
 end designation_examples
+
+
+/-! ## The converse: Resolve fails when a reference designates nothing — and, on a well-formed document, only then
+
+Soundness above says: success ⇒ every reference has the designated target.  Here: a reference that designates
+nothing ⇒ no success (`dangling_ref_is_error`), and on a self-contained document (no Loader) that satisfies the
+well-formedness conditions W1–W6 of JSV/Spec/WellFormed.lean — one per other reason resolve.go has to return an
+error — every reference designating something ⇒ success (`resolve_complete_selfcontained`); together
+`resolve_ok_iff_selfcontained`.  `topDoc env root` is the document read under the draft its `$schema` selects. -/
+
+section completeness
+open Spec RComp
+
+/-- Without a Loader: if some `$ref` or `$dynamicRef` of `root.all()` designates no subschema of the document
+    (`b` = the parsed BaseURI option), Schema.Resolve does not succeed; it returns an error for every positive
+    fuel (never a panic, never another target). -/
+theorem dangling_ref_is_error (env : Env) (hl : env.loader = none) (fuel : Nat) (root : NodeId) (base : String)
+    (id : NodeId) (n : Node) (hid : id ∈ allNodes env.st (env.st.size + 2) [root]) (hn : env.st.get? id = some n)
+    (hdang : ∀ b, retrievalOf base = .ok b →
+      (n.ref ≠ "" ∧ ¬ ∃ t, (topDoc env root).Designates b id n.ref t) ∨
+      (n.dynamicRef ≠ "" ∧ ¬ ∃ t, (topDoc env root).Designates b id n.dynamicRef t)) :
+    (∀ rs, Go.resolve env fuel root base ≠ .ok rs) ∧ (1 ≤ fuel → Go.resolve env fuel root base = .err) := by
+  have hno : ∀ rs, Go.resolve env fuel root base ≠ .ok rs := by
+    intro rs h
+    obtain ⟨b, hb, hall⟩ := resolve_designates_noloader env hl fuel root base rs h
+    obtain ⟨h1, h2⟩ := hall id hid n hn
+    rcases hdang b hb with ⟨hne, hnot⟩ | ⟨hne, hnot⟩
+    · exact hnot (h1 hne)
+    · exact hnot (h2 hne)
+  refine ⟨hno, fun hfuel => ?_⟩
+  cases hr : Go.resolve env fuel root base with
+  | ok rs => exact absurd hr (hno rs)
+  | err => rfl
+  | panic => exact absurd hr (resolve_ne_panic_noloader env hl fuel root base)
+  | fuel => exact absurd hr (RTot.resolve_ne_fuel env fuel root base (by rw [hl]; simpa using hfuel))
+
+/-- With a Loader that satisfies the freshness assumption: if a `$ref` of `root.all()` designates nothing among
+    any documents the resolution may touch (`docs`: the root document under the retrieval URI `b`, Loader
+    documents under the URIs they are served for), Schema.Resolve does not succeed; when moreover the documents are
+    disjoint (`docsDisjoint`, decidable) and the fuel exceeds the number of Loader entries, it returns an error. -/
+theorem dangling_ref_is_error_among (env : Env) (fuel : Nat) (root : NodeId) (base : String)
+    (hfresh : LoaderFresh env root)
+    (id : NodeId) (n : Node) (hid : id ∈ allNodes env.st (env.st.size + 2) [root]) (hn : env.st.get? id = some n)
+    (hne : n.ref ≠ "")
+    (hdang : ∀ b docs draft, retrievalOf base = .ok b →
+      (∀ e ∈ docs, e.1.st = env.st ∧ ((e.1.root = root ∧ e.2 = b) ∨
+        ∃ tbl, env.loader = some tbl ∧ Json.lookup (Uri.toString e.2) tbl = some (.doc e.1.root))) →
+      ¬ ∃ t, DesignatesAmong docs ⟨env.st, draft, root⟩ b id n.ref t) :
+    (∀ rs, Go.resolve env fuel root base ≠ .ok rs) ∧
+    (RTot.docsDisjoint env root = true → (env.loader.getD []).length + 1 ≤ fuel →
+      Go.resolve env fuel root base = .err) := by
+  have hno : ∀ rs, Go.resolve env fuel root base ≠ .ok rs := by
+    intro rs h
+    obtain ⟨b, docs, hb, hdocs, hall⟩ := resolve_sound env fuel root base rs hfresh h
+    obtain ⟨info, t, _, _, hd⟩ := (hall id hid n hn).1 hne
+    exact hdang b docs rs.draft hb hdocs ⟨t, hd⟩
+  refine ⟨hno, fun hdis hfuel => ?_⟩
+  cases hr : Go.resolve env fuel root base with
+  | ok rs => exact absurd hr (hno rs)
+  | err => rfl
+  | panic => exact absurd hr (RTot.resolve_ne_panic env fuel root base hdis)
+  | fuel => exact absurd hr (RTot.resolve_ne_fuel env fuel root base hfuel)
+
+/-- COMPLETENESS, self-contained documents.  No Loader; then the following are ALL the reasons resolve.go has to
+    fail, so a document that passes them is resolved, by every positive fuel:
+
+    * W1 the BaseURI option is empty or parses, W2 and has no fragment;
+    * W3 `structureOk`: the subschemas form a tree without nil pointers (checkStructure);
+    * W4 `localOk`: checkLocal accepts every subschema;
+    * W5 `IdsOk`: every `$id` that is read parses, has no fragment in 2020-12, and the URI of every resource it
+      establishes is absolute;
+    * W6 `UniqueIds`: no URI identifies two resources (NOT checked by resolve.go — see the counterexample
+      `dupStore` below: without it the resolver may look in the wrong one of two homonymous resources);
+    * D  every `$ref` and every `$dynamicRef` of `root.all()` designates a subschema of the document (in
+      particular its fragment-less URI identifies a resource of the document: no reference leaves it). -/
+theorem resolve_complete_selfcontained (env : Env) (hl : env.loader = none) (fuel : Nat) (hfuel : 1 ≤ fuel)
+    (root : NodeId) (base : String) (b : Uri.Url)
+    (W1 : retrievalOf base = .ok b) (W2 : b.fragment = "")
+    (W3 : structureOk env.st root = true) (W4 : localOk env root = true)
+    (W5 : (topDoc env root).IdsOk b) (W6 : (topDoc env root).UniqueIds b)
+    (D : (topDoc env root).RefsDesignate b (allNodes env.st (env.st.size + 2) [root])) :
+    ∃ rs, Go.resolve env fuel root base = .ok rs :=
+  resolve_ok_of_wf env hl fuel hfuel root base b W1 W2 W3 W4 W5 W6 D
+
+/-- the same with the Bool checkers for W5, W6 (sufficient, evaluable) -/
+theorem resolve_complete_selfcontained_checked (env : Env) (hl : env.loader = none) (fuel : Nat) (hfuel : 1 ≤ fuel)
+    (root : NodeId) (base : String) (b : Uri.Url)
+    (W1 : retrievalOf base = .ok b) (W2 : b.fragment = "")
+    (W3 : structureOk env.st root = true) (W4 : localOk env root = true)
+    (W5 : (topDoc env root).idsOk b = true) (W6 : (topDoc env root).uniqueIds b = true)
+    (D : (topDoc env root).RefsDesignate b (allNodes env.st (env.st.size + 2) [root])) :
+    ∃ rs, Go.resolve env fuel root base = .ok rs :=
+  resolve_ok_of_wf env hl fuel hfuel root base b W1 W2 W3 W4 (idsOk_sound _ _ W5) (uniqueIds_sound _ _ W6) D
+
+/-- the conditions W1–W5 are necessary, whatever the Loader: a successful Resolve was given a well-formed document -/
+theorem resolve_ok_wellformed (env : Env) (fuel : Nat) (root : NodeId) (base : String) (rs : Resolved)
+    (h : Go.resolve env fuel root base = .ok rs) :
+    ∃ b, retrievalOf base = .ok b ∧ b.fragment = "" ∧ structureOk env.st root = true ∧
+      localOk env root = true ∧ (topDoc env root).IdsOk b :=
+  resolve_wf_of_ok env fuel root base rs h
+
+/-- Success exactly when well-formed and every reference designates something: for a document without Loader in
+    which no URI identifies two resources (W6), and positive fuel. -/
+theorem resolve_ok_iff_selfcontained (env : Env) (hl : env.loader = none) (fuel : Nat) (hfuel : 1 ≤ fuel)
+    (root : NodeId) (base : String)
+    (W6 : ∀ b, retrievalOf base = .ok b → (topDoc env root).UniqueIds b) :
+    (∃ rs, Go.resolve env fuel root base = .ok rs) ↔
+    ∃ b, retrievalOf base = .ok b ∧ b.fragment = "" ∧ structureOk env.st root = true ∧ localOk env root = true ∧
+      (topDoc env root).IdsOk b ∧
+      (topDoc env root).RefsDesignate b (allNodes env.st (env.st.size + 2) [root]) := by
+  constructor
+  · rintro ⟨rs, h⟩
+    obtain ⟨b, hb, h2, h3, h4, h5⟩ := resolve_wf_of_ok env fuel root base rs h
+    obtain ⟨b', hb', hD⟩ := resolve_designates_noloader env hl fuel root base rs h
+    rw [hb] at hb'
+    simp only [Res.ok.injEq] at hb'
+    subst hb'
+    exact ⟨b, hb, h2, h3, h4, h5, hD⟩
+  · rintro ⟨b, hb, h2, h3, h4, h5, hD⟩
+    exact resolve_ok_of_wf env hl fuel hfuel root base b hb h2 h3 h4 h5 (W6 b hb) hD
+
+/-- otherwise (positive fuel, no Loader) the outcome is an error: never a panic, never out of fuel -/
+theorem resolve_err_iff_selfcontained (env : Env) (hl : env.loader = none) (fuel : Nat) (hfuel : 1 ≤ fuel)
+    (root : NodeId) (base : String) :
+    Go.resolve env fuel root base = .err ↔ ¬ ∃ rs, Go.resolve env fuel root base = .ok rs := by
+  cases hr : Go.resolve env fuel root base with
+  | ok rs => simp
+  | err => simp
+  | panic => exact absurd hr (resolve_ne_panic_noloader env hl fuel root base)
+  | fuel => exact absurd hr (RTot.resolve_ne_fuel env fuel root base (by rw [hl]; simpa using hfuel))
+
+/-- COMPLETENESS with a Loader whose documents are all present (`UniverseOk`, JSV/Spec/WellFormed.lean):
+    * every document — the top one under the retrieval URI `b`, every Loader document under every URL whose string
+      is its key in the table — is well-formed (W2–W6), and all documents are read under one draft `dr`;
+    * every reference of every document is good (`Doc.RefGood`): its fragment-less URI identifies a resource of
+      its own document in which the fragment selects something, or it identifies nothing there and is a name of the
+      top document or a key of the Loader table (with a `.doc` entry) in whose document the fragment selects something;
+    * no URI names two documents (`Coherent`: retrieval URIs and root `$id`s — what resolver.loaded is keyed by);
+    * the Loader's documents share no schema object (`LoaderFresh`, and its decidable form `docsDisjoint` which
+      excludes the model's panic).
+    Then Schema.Resolve succeeds, for every fuel above the number of Loader entries. -/
+theorem resolve_complete (env : Env) (root : NodeId) (dr : Draft) (base : String) (b : Uri.Url) (fuel : Nat)
+    (hfuel : (env.loader.getD []).length + 1 ≤ fuel) (W1 : retrievalOf base = .ok b)
+    (hfresh : LoaderFresh env root) (hdis : RTot.docsDisjoint env root = true)
+    (U : UniverseOk env root dr b) : ∃ rs, Go.resolve env fuel root base = .ok rs :=
+  resolve_ok_of_universe env root dr b base fuel hfuel W1 hfresh hdis U
+
+end completeness
+
+/-! ### The completeness theorems on non-trivial data
+
+`dsEnv` (above): an embedded resource, an anchor of the same name inside and outside it, four references.
+All hypotheses of `resolve_complete_selfcontained` hold — W3–W6 by evaluation of the checkers, D by a table of
+witnesses (`dsCert`: lineage of the referring schema, lineage of the identified resource root, lineage of the
+target) checked by `checkRefs` — so the theorem yields a successful resolution. -/
+
+section completeness_examples
+open Spec RComp
+
+/-- for `$ref` in schema `id`: ⟨lineage of `id`, lineage of the resource root, the root, lineage of the target, target⟩ -/
+def dsCert : NodeId → Bool → DesigCert
+  | 3, _ => ⟨[3], [], 0, [1], 1⟩         -- "#foo" in the root resource: the `foo` outside
+  | 4, _ => ⟨[4], [2], 2, [2, 6], 6⟩     -- "sub.json#foo": the `foo` inside
+  | 5, _ => ⟨[5], [2], 2, [], 6⟩         -- "sub.json#/$defs/c"
+  | 7, _ => ⟨[2, 7], [2], 2, [2, 6], 6⟩  -- "#foo" inside the embedded resource
+  | _, _ => ⟨[], [], 0, [], 0⟩
+
+theorem ds_all : allNodes dsStore (dsStore.size + 2) [0] = [0, 1, 2, 6, 7, 3, 4, 5] := by decide +kernel
+theorem ds_W3 : structureOk dsStore 0 = true := by decide +kernel
+theorem ds_W4 : localOk dsEnv 0 = true := by decide +kernel
+theorem ds_W5 : (topDoc dsEnv 0).idsOk {} = true := by decide +kernel
+theorem ds_W6 : (topDoc dsEnv 0).uniqueIds {} = true := by decide +kernel
+theorem ds_D : (topDoc dsEnv 0).RefsDesignate {} (allNodes dsEnv.st (dsEnv.st.size + 2) [0]) := by
+  have h : allNodes dsEnv.st (dsEnv.st.size + 2) [0] = [0, 1, 2, 6, 7, 3, 4, 5] := ds_all
+  rw [h]
+  exact checkRefs_sound _ _ _ dsCert (by decide +kernel)
+
+/-- every hypothesis of the completeness theorem holds for `dsEnv`, hence Resolve succeeds -/
+example : ∃ rs, Go.resolve dsEnv 1 0 "" = .ok rs :=
+  resolve_complete_selfcontained_checked dsEnv rfl 1 (by decide) 0 "" {} rfl rfl ds_W3 ds_W4 ds_W5 ds_W6 ds_D
+
+/-- the same through the iff -/
+example : ∃ rs, Go.resolve dsEnv 1 0 "" = .ok rs :=
+  (resolve_ok_iff_selfcontained dsEnv rfl 1 (by decide) 0 "" (by
+      intro b hb
+      have : retrievalOf "" = .ok ({} : Uri.Url) := rfl
+      rw [this] at hb
+      simp only [Res.ok.injEq] at hb
+      subst hb
+      exact uniqueIds_sound _ _ ds_W6)).mpr
+    ⟨{}, rfl, rfl, ds_W3, ds_W4, idsOk_sound _ _ ds_W5, ds_D⟩
+
+/-! Dropping the designation hypothesis: `dgStore` = `dsStore` with the reference of schema 7 changed to `#bar` —
+    no schema of the embedded resource declares `bar`.  W1–W6 still hold, every other reference still designates its
+    target; Resolve returns an error; and by the completeness theorem, the reference of schema 7 designates nothing,
+    which is the hypothesis of `dangling_ref_is_error`. -/
+
+def dgStore : Store := #[
+  { id := "http://a/root.json", defs := some [("a", 1), ("b", 2)], allOf := some [3, 4, 5] },
+  { anchor := "foo" },
+  { id := "sub.json", defs := some [("c", 6)], items := some 7 },
+  { ref := "#foo" },
+  { ref := "sub.json#foo" },
+  { ref := "sub.json#/$defs/c" },
+  { anchor := "foo" },
+  { ref := "#bar" } ]
+def dgEnv : Env := { st := dgStore, reOk := fun _ => true, loader := none }
+
+example : (Go.resolve dgEnv 1 0 "").verdict = some false := by decide +kernel
+
+theorem dg_dangling : ¬ ∃ t, (topDoc dgEnv 0).Designates {} 7 "#bar" t := by
+  intro h7
+  have hall : allNodes dgEnv.st (dgEnv.st.size + 2) [0] = [0, 1, 2, 6, 7, 3, 4, 5] := by decide +kernel
+  have hrest : (topDoc dgEnv 0).RefsDesignate {} [0, 1, 2, 6, 3, 4, 5] :=
+    checkRefs_sound _ _ _ dsCert (by decide +kernel)
+  have hD : (topDoc dgEnv 0).RefsDesignate {} (allNodes dgEnv.st (dgEnv.st.size + 2) [0]) := by
+    rw [hall]
+    intro id hid n hn
+    by_cases h : id = 7
+    · subst h
+      have hn7 : n = { ref := "#bar" } := by
+        have : (topDoc dgEnv 0).st.get? 7 = some { ref := "#bar" } := rfl
+        rw [this] at hn
+        exact (Option.some.inj hn).symm
+      subst hn7
+      exact ⟨fun _ => h7, fun hne => absurd rfl hne⟩
+    · apply hrest id _ n hn
+      simp only [List.mem_cons, List.mem_nil_iff, or_false] at hid ⊢
+      rcases hid with h0 | h0 | h0 | h0 | h0 | h0 | h0 | h0
+      all_goals first | exact absurd h0 h | simp [h0]
+  obtain ⟨rs, hrs⟩ := resolve_complete_selfcontained_checked dgEnv rfl 1 (by decide) 0 "" {} rfl rfl
+    (by decide +kernel) (by decide +kernel) (by decide +kernel) (by decide +kernel) hD
+  have hv : (Go.resolve dgEnv 1 0 "").verdict = some false := by decide +kernel
+  rw [hrs] at hv
+  simp [Res.verdict] at hv
+
+/-- so `dangling_ref_is_error` applies: an error, for every positive fuel -/
+example (fuel : Nat) (hfuel : 1 ≤ fuel) : Go.resolve dgEnv fuel 0 "" = .err :=
+  (dangling_ref_is_error dgEnv rfl fuel 0 "" 7 { ref := "#bar" } (by decide +kernel) rfl (by
+    intro b hb
+    have : retrievalOf "" = .ok ({} : Uri.Url) := rfl
+    rw [this] at hb
+    simp only [Res.ok.injEq] at hb
+    subst hb
+    exact Or.inl ⟨by decide, dg_dangling⟩)).2 hfuel
+
+/-- a reference that leaves the document (`other.json`, no Loader): an error as well -/
+example : (Go.resolve { dsEnv with st := dsStore.set! 3 { ref := "other.json" } } 1 0 "").verdict = some false := by
+  decide +kernel
+
+/-! W6 cannot be dropped, and resolve.go does not check it: two subschemas with the same `$id`.  The second
+    registration silently replaces the first in `resolvedURIs`; the reference `x.json#/$defs/t` designates schema 4
+    (in the first resource, schema 1), all of W1–W5 and D hold, and Resolve fails with "no key t" because it looks in
+    the second resource (schema 2).  With the names `a` and `b` exchanged it succeeds.  (Replayed on the Go package:
+    same outcome.) -/
+
+def dupStore : Store := #[
+  { id := "http://a/root.json", defs := some [("a", 1), ("b", 2)], allOf := some [3] },
+  { id := "x.json", defs := some [("t", 4)] },
+  { id := "x.json" },
+  { ref := "x.json#/$defs/t" },
+  { } ]
+def dupEnv : Env := { st := dupStore, reOk := fun _ => true, loader := none }
+
+example : (Go.resolve dupEnv 1 0 "").verdict = some false := by decide +kernel
+example : structureOk dupStore 0 = true ∧ localOk dupEnv 0 = true ∧ (topDoc dupEnv 0).idsOk {} = true := by
+  decide +kernel
+example : (topDoc dupEnv 0).RefsDesignate {} (allNodes dupEnv.st (dupEnv.st.size + 2) [0]) := by
+  have h : allNodes dupEnv.st (dupEnv.st.size + 2) [0] = [0, 1, 4, 2, 3] := by decide +kernel
+  rw [h]
+  exact checkRefs_sound _ _ _ (fun _ _ => ⟨[3], [1], 1, [], 4⟩) (by decide +kernel)
+/-- what fails is W6 -/
+example : (topDoc dupEnv 0).uniqueIds {} = false := by decide +kernel
+example : ¬ (topDoc dupEnv 0).UniqueIds {} := by
+  intro h
+  have h1 : (topDoc dupEnv 0).Identifies {} "http://a/x.json" 1 :=
+    Or.inr ⟨⟨[1], by decide +kernel, by decide +kernel⟩, _, ⟨[1], by decide +kernel, rfl⟩, by decide +kernel⟩
+  have h2 : (topDoc dupEnv 0).Identifies {} "http://a/x.json" 2 :=
+    Or.inr ⟨⟨[2], by decide +kernel, by decide +kernel⟩, _, ⟨[2], by decide +kernel, rfl⟩, by decide +kernel⟩
+  exact absurd (h _ _ _ h1 h2) (by decide)
+
+/-! With a Loader: the universe `exEnv` (root document 0 with two references into `http://a/other.json`, served by
+    the Loader as document 3) satisfies `UniverseOk`; the references leave the root document (`checkRefOut`: their
+    URI is no key of the document and is a key of the table) and the fragment selects in the Loader's document. -/
+
+theorem ex_tbl (tbl : List (String × LoaderResult)) (h : exEnv.loader = some tbl) :
+    tbl = [("http://a/other.json", .doc 3)] := by
+  have : exEnv.loader = some [("http://a/other.json", .doc 3)] := rfl
+  rw [this] at h
+  simp only [Option.some.injEq] at h
+  exact h.symm
+
+theorem ex_key (k : String) (r : NodeId)
+    (h : Json.lookup k [("http://a/other.json", LoaderResult.doc 3)] = some (.doc r)) :
+    k = "http://a/other.json" ∧ r = 3 := by
+  rw [Json.lookup_cons] at h
+  split at h
+  · rename_i hk
+    simp only [Option.some.injEq, LoaderResult.doc.injEq] at h
+    exact ⟨hk.symm, h.symm⟩
+  · simp at h
+
+/-- the Loader document (schemas 3, 4) carries no `$id` -/
+theorem ex_noIds (dr : Draft) : NoIds ⟨exStore, dr, 3⟩ := by
+  intro x n hx hn
+  have hmem := reach_sub_closed exStore [3, 4] 3 x (by simp) (by decide +kernel) hx
+  simp only [List.mem_cons, List.mem_nil_iff, or_false] at hmem
+  have hn' : exStore.get? x = some n := hn
+  rcases hmem with rfl | rfl
+  · have : exStore.get? 3 = some { defs := some [("x", 4)] } := rfl
+    rw [this] at hn'
+    rw [← Option.some.inj hn']
+  · have : exStore.get? 4 = some { type := "string" } := rfl
+    rw [this] at hn'
+    rw [← Option.some.inj hn']
+
+theorem ex_universe : UniverseOk exEnv 0 .d2020 {} where
+  topDr := by decide +kernel
+  loaderDraft := by
+    intro tbl k r rn htbl hk hrn
+    rw [ex_tbl tbl htbl] at hk
+    obtain ⟨_, rfl⟩ := ex_key k r hk
+    have : exEnv.st.get? 3 = some { defs := some [("x", 4)] } := rfl
+    rw [this] at hrn
+    rw [← Option.some.inj hrn]
+    rfl
+  topDoc :=
+    { frag := rfl
+      struct := by decide +kernel
+      locals := by decide +kernel
+      ids := idsOk_sound _ _ (by decide +kernel)
+      uniq := uniqueIds_sound _ _ (by decide +kernel)
+      refs := by
+        have hall : allNodes exStore (exStore.size + 2) [0] = [0, 1, 2] := by decide +kernel
+        intro id hid n hn
+        have hid' : id ∈ [0, 1, 2] := by rw [← hall]; exact hid
+        have hn' : exStore.get? id = some n := hn
+        simp only [List.mem_cons, List.mem_nil_iff, or_false] at hid'
+        rcases hid' with rfl | rfl | rfl
+        · have : exStore.get? 0 = some { id := "http://a/root.json", allOf := some [1, 2] } := rfl
+          rw [this] at hn'
+          rw [← Option.some.inj hn']
+          exact ⟨fun h => absurd rfl h, fun h => absurd rfl h⟩
+        · have : exStore.get? 1 = some { ref := "other.json#/$defs/x" } := rfl
+          rw [this] at hn'
+          rw [← Option.some.inj hn']
+          exact ⟨fun _ => checkRefOut_sound exEnv 0 {} _ {} 1 _ [1] 3 [] 4 (by decide +kernel), fun h => absurd rfl h⟩
+        · have : exStore.get? 2 = some { ref := "other.json" } := rfl
+          rw [this] at hn'
+          rw [← Option.some.inj hn']
+          exact ⟨fun _ => checkRefOut_sound exEnv 0 {} _ {} 2 _ [2] 3 [] 3 (by decide +kernel), fun h => absurd rfl h⟩ }
+  docs := by
+    intro tbl u r htbl hk hfr
+    rw [ex_tbl tbl htbl] at hk
+    obtain ⟨_, rfl⟩ := ex_key _ r hk
+    exact
+      { frag := hfr
+        struct := by decide +kernel
+        locals := by decide +kernel
+        ids := noIds_idsOk _ (ex_noIds _) u
+        uniq := noIds_uniqueIds _ (ex_noIds _) u
+        refs := by
+          have hall : allNodes exStore (exStore.size + 2) [3] = [3, 4] := by decide +kernel
+          intro id hid n hn
+          have hid' : id ∈ [3, 4] := by rw [← hall]; exact hid
+          have hn' : exStore.get? id = some n := hn
+          simp only [List.mem_cons, List.mem_nil_iff, or_false] at hid'
+          rcases hid' with rfl | rfl
+          · have : exStore.get? 3 = some { defs := some [("x", 4)] } := rfl
+            rw [this] at hn'
+            rw [← Option.some.inj hn']
+            exact ⟨fun h => absurd rfl h, fun h => absurd rfl h⟩
+          · have : exStore.get? 4 = some { type := "string" } := rfl
+            rw [this] at hn'
+            rw [← Option.some.inj hn']
+            exact ⟨fun h => absurd rfl h, fun h => absurd rfl h⟩ }
+  coherent := by
+    have htop : ∀ key, (⟨exEnv.st, .d2020, 0⟩ : Doc).Identifies {} key 0 → key = "" ∨ key = "http://a/root.json" := by
+      intro key h
+      have hm := identifies_mem ⟨exEnv.st, .d2020, 0⟩ {} (by decide +kernel) key 0 h
+      have hk : (⟨exEnv.st, .d2020, 0⟩ : Doc).identKeys {} = [("", 0), ("http://a/root.json", 0)] := by decide +kernel
+      rw [hk] at hm
+      simp only [List.mem_cons, Prod.mk.injEq, List.mem_nil_iff, or_false] at hm
+      rcases hm with ⟨h, _⟩ | ⟨h, _⟩
+      · exact Or.inl h
+      · exact Or.inr h
+    have hdoc : ∀ key x, (∃ tbl u, exEnv.loader = some tbl ∧ Json.lookup (Uri.toString u) tbl = some (.doc x) ∧
+        (⟨exEnv.st, .d2020, x⟩ : Doc).Identifies u key x) → x = 3 ∧ key = "http://a/other.json" := by
+      rintro key x ⟨tbl, u, htbl, hk, hI⟩
+      rw [ex_tbl tbl htbl] at hk
+      obtain ⟨hu, rfl⟩ := ex_key _ x hk
+      exact ⟨rfl, by rw [(noIds_identifies _ (ex_noIds _) u key 3 hI).2, hu]⟩
+    intro key x y hx hy
+    rcases hx with ⟨rfl, hx⟩ | hx <;> rcases hy with ⟨rfl, hy⟩ | hy
+    · rfl
+    · obtain ⟨_, hk⟩ := hdoc key y hy
+      rcases htop key hx with h | h <;> rw [h] at hk <;> exact absurd hk (by decide)
+    · obtain ⟨_, hk⟩ := hdoc key x hx
+      rcases htop key hy with h | h <;> rw [h] at hk <;> exact absurd hk (by decide)
+    · rw [(hdoc key x hx).1, (hdoc key y hy).1]
+
+/-- so `resolve_complete` applies: success, by every fuel ≥ 2 -/
+example : ∃ rs, Go.resolve exEnv 2 0 "" = .ok rs :=
+  resolve_complete exEnv 0 .d2020 "" {} 2 (by decide) rfl exEnv_fresh (by decide +kernel) ex_universe
+
+/-! Why `Doc.RefGood` asks a reference that leaves its document for a KEY of the Loader table (or a name of the top
+    document), not for any name of a Loader document: a Loader document can be reached under the URI its root `$id`
+    gives it only once it has been loaded under its retrieval URI (resolver.loaded is filled as documents arrive), so
+    with the same universe success depends on the order of the references.  (Replayed on the Go package: same outcomes.) -/
+
+def alStore : Store := #[
+  { id := "http://a/root.json", allOf := some [1, 2] },
+  { ref := "http://a/x.json" },
+  { ref := "http://canon/x" },
+  { id := "http://canon/x" } ]
+def alEnv : Env := { st := alStore, reOk := fun _ => true, loader := some [("http://a/x.json", .doc 3)] }
+def alEnv' : Env := { alEnv with st := (alStore.set! 1 { ref := "http://canon/x" }).set! 2 { ref := "http://a/x.json" } }
+
+example : ((Go.resolve alEnv 2 0 "").bind fun rs => .ok (rs.log, rs.infos.map fun e => (e.1, e.2.resolvedRef))) =
+    .ok (["http://a/x.json"], [(0, none), (1, some 3), (2, some 3), (3, none)]) := by decide +kernel
+example : (Go.resolve alEnv' 2 0 "").verdict = some false := by decide +kernel
+end completeness_examples
+
 
 /-! ## Tests of the URL model against RFC 3986 §5.4 (reference resolution examples) -/
 
